@@ -59,7 +59,7 @@ def gen(args):
     wid, n, sd, big = args
     rng = np.random.default_rng([sd, wid, 1616])
     out = []
-    for t in range(n):
+    for t in core.timed(range(n)):
         dim = int(rng.integers(1, 5))
         N = int(rng.integers(2, 41 if big else 25))
         kind = ["uniform", "clustered", "collinear", "dups", "grid"][int(rng.integers(5))]
